@@ -10,7 +10,7 @@ from harness.runner import Check  # noqa: E402
 
 SEMIRINGS = [("add", "mul", "real"), ("logaddexp", "add", "log"), ("max", "add", "real"), ("min", "add", "real"),
              ("max", "mul", "nonneg"), ("min", "mul", "nonneg"), ("or_", "and_", "bool")]
-SCHEDS = ["optimizer", "normalize_idem", "lazy_normalize_eager", "unfold", "normalize"]
+SCHEDS = ["optimizer", "normalize_idem", "lazy_normalize_eager", "unfold", "normalize", "normalize>optimizer"]
 VARS = [("a", 2), ("b", 3), ("c", 2), ("d", 2)]
 
 
@@ -72,11 +72,39 @@ def gen_sameop(rng, n):
         for i in range(k):
             vs = [v for v in VARS if rng.random() < 0.5]
             ops_.append(leaf("g%d" % i, tuple(vs), (), car))
+        if car == "real" and rng.random() < 0.4:
+            from lang.prog import var
+            ops_.insert(rng.randrange(len(ops_) + 1), var("theta", ("real", ())))     # a free real parameter
         e = ops_[0]
         for o in ops_[1:]:
             e = binary(op, e, o)
         red = tuple(v for v in VARS if rng.random() < 0.6) or (VARS[0],)
         out.append((op, car, reduce_(op, e, red)))
+    return out
+
+
+def gen_distributive(rng, n, sum_op, prod_op, carrier):
+    """a sum nested inside a product under a reduction, a repeated operand object, and both"""
+    from lang.prog import binary, leaf, num, reduce_
+    out = []
+    for _ in range(n):
+        def L(i):
+            vs = [v for v in VARS if rng.random() < 0.5]
+            return leaf("h%d" % i, tuple(vs), (), carrier)
+        a, b, c, d = L(0), L(1), L(2), L(3)
+        kind = rng.choice(["dist", "dist2", "repeat", "repeat3", "both"])
+        if kind == "dist":
+            e = binary(prod_op, a, binary(sum_op, b, c))
+        elif kind == "dist2":
+            e = binary(prod_op, binary(sum_op, a, b), binary(prod_op, c, binary(sum_op, d, a if rng.random() < 0.3 else c)))
+        elif kind == "repeat":
+            e = binary(prod_op, binary(prod_op, a, a), b)
+        elif kind == "repeat3":
+            e = binary(prod_op, binary(prod_op, a, b), binary(prod_op, a, binary(prod_op, c, a)))
+        else:
+            e = binary(prod_op, a, binary(prod_op, binary(sum_op, b, c), a))
+        red = tuple(v for v in VARS if rng.random() < 0.6) or (VARS[1],)
+        out.append(reduce_(sum_op, e, red))
     return out
 
 
@@ -112,8 +140,15 @@ def einsum_worker(inst):
         from funsor import Bint, Tensor
         from funsor.einsum import einsum
         from symx.symarray import as_obj
-        xs = [mk.array("x%d" % i, tuple(sizes[c] for c in s), car) for i, s in enumerate(ins_s)]
-        ts = [Tensor(x, OrderedDict((c, Bint[sizes[c]]) for c in s)) for x, s in zip(xs, ins_s)]
+        xs, ts, seen = [], [], {}
+        for i, s in enumerate(ins_s):
+            if s in seen:        # the same operand OBJECT is passed again for a repeated subscript
+                xs.append(xs[seen[s]])
+                ts.append(ts[seen[s]])
+                continue
+            seen[s] = i
+            xs.append(mk.array("x%d" % i, tuple(sizes[c] for c in s), car))
+            ts.append(Tensor(xs[-1], OrderedDict((c, Bint[sizes[c]]) for c in s)))
         r = einsum(eq, *ts, backend=backend)
         data = r.align(tuple(out_s)).data if out_s else r.data
         summed = sorted(set("".join(ins_s)) - set(out_s))
@@ -159,8 +194,16 @@ def instances(tier, seed):
                 out.append(("prog", s, sr, p, False, n % 15 == 0))
             if n % 5 == 0:
                 out.append(("prog", "optimizer", sr, p, True, False))     # relational: optimized == naive eager
+    for sr in SEMIRINGS:
+        heavy = sr[1] == "mul" and sr[0] in ("max", "min")
+        for p in gen_distributive(rng, (10 if heavy else 25) if tier == "quick" else (60 if heavy else 250), sr[0], sr[1], sr[2]):
+            for sch in ("optimizer", "normalize>optimizer", "lazy>normalize>optimizer", "unfold", "lazy_normalize_eager"):
+                if tier == "quick" and rng.random() < 0.4:
+                    continue
+                n += 1
+                out.append(("prog", sch, sr, p, False, False))
     for op, car, p in gen_sameop(rng, 40 if tier == "quick" else 400):
-        for sch in (SCHEDS if tier != "quick" else ["normalize", "lazy_normalize_eager"]):
+        for sch in (SCHEDS + ["immediate"] if tier != "quick" else ["normalize", "lazy_normalize_eager", "immediate"]):
             out.append(("prog", sch, (op, op, car), p, False, False))
     for _, eq in einsum_instances(tier):
         for be in ("numpy", "funsor.einsum.numpy_log", "funsor.einsum.numpy_map"):
